@@ -35,27 +35,28 @@ ROWS = {
   text='Lean theorems for all headers/payloads: both checksums make the byte sums zero, the frame carries exactly the '
        'given fields (parsed back by an independent wire specification), rx_filter accepts iff checksums verify and '
        'netfn+1/cmd/LUN/(seq)/enabled address checks match, hence every single-byte corruption of an accepted reply '
-       'is rejected. The checksum arithmetic, header encode/decode expressions and the list of filter checks are '
+       'is rejected; the same clause through the LAN transport, which may unwrap before the filter sees a frame: whatever the transport accepts is intact as received, so any single corrupted byte of a plain or wrapped reply (any wrapper byte, any depth) is dropped (transport_single_byte_corruption_rejected; counter-example theorem for the source before fix e1dd889). The checksum arithmetic, header encode/decode expressions and the list of filter checks are '
        'regenerated from the AST of pyipmi/interfaces/ipmb.py on every run.',
   note='translator harness/translate/ipmb.py; control flow around the generated expressions (Model/Ipmb.lean) is '
-       'hand-written and tied by a differential run (all 32 flag settings, every single-byte corruption of sampled replies)',
+       'hand-written and tied by a differential run (all 32 flag settings, every single-byte corruption of sampled replies; every single-byte corruption of plain and 1..3-fold wrapped replies through the real Rmcp)',
   tech='Lean 4 proof (byte-sum algebra, iff characterisation of the filter) + AST translator + differential correspondence'),
  'C04': dict(
-  text='Lean theorems over ALL event lists, retry budgets, quirk settings and histories for the receive loops of the '
-       'RMCP, ipmb-dev and Aardvark transports: whatever is returned is the data of a received frame that passes the '
-       'specification\'s match predicate (attribution soundness), consecutive sequence numbers differ, a match behind '
-       '<= max_retries unrelated frames/time-outs is found, the queue stays empty so later requests are not poisoned. '
-       'Loop bounds, sequence rule and slice bounds are regenerated from the source, and so is the control flow: the '
-       'five Python functions of the three loops are re-read statement by statement into a tiny loop AST on every run '
-       'and must equal the annotated functions the step models were written from (source_shape_rmcp/_ipmbdev/_aardvark, '
-       'source_facts); a moved, added, removed or changed statement stops these theorems from building. The loop models are tied by '
-       'exhaustive orderings (length <= 4..6) over a 9-letter frame alphabet on the real transports with fake '
-       'socket/fd/clock.',
+  text='32 Lean theorems over all event lists, budgets, quirks and histories - the socket\'s receive queue included - for '
+       'RMCP, ipmb-dev and Aardvark (with is_ipmc_accessible): attribution through intact Send Message responses '
+       'only; a CompletionCodeError only from the outstanding Send Message\'s own response; sequence numbers distinct '
+       '(probes too); a match behind <= max_retries unrelated frames or time-outs is found for every request incl. '
+       'command 34h; after any history and any socket leftovers a request whose reply arrives is answered for every '
+       'max_retries incl. 0. Counter-example theorems for the source before the fixes (command-only recognition, no '
+       'drain, probe without increment, re-queue). Eight functions are re-read statement by statement into a tiny loop '
+       'AST on every run and must equal the annotated functions the step models were written from (source_shape_*, '
+       'source_facts); a moved, added, removed or changed statement stops these theorems from building. The loop '
+       'models are tied by exhaustive orderings (length <= 4..6) over a frame alphabet on the real transports with '
+       'fake socket/fd/clock, and by two-thread schedules with one late reply.',
   note='translator harness/translate/loops04.py (syntax-directed AST printer + constant readers); hand-written step '
        'functions in Model/RmcpLoop.lean and IpmbDevLoop.lean whose source shape is generated and pinned '
        '(Model/LoopAst.lean, Loops.Shape.*) and whose behaviour is tied by the correspondence run; receive events are '
        'given (no real timing); sessionless RMCP only (C05/C06 own packing)',
-  tech='Lean 4 proof (invariant by induction over event lists) + translator of constants and of the loops\' statement-level shape + exhaustive-ordering correspondence on the real loops'),
+  tech='Lean 4 proof (invariant by induction over event lists) + translator of constants and of the loops\' statement-level shape + exhaustive-ordering correspondence on the real loops + two-thread schedules with one late reply under the deterministic scheduler'),
  'C05': dict(
   text='Lean theorems for all payloads, session ids, sequence numbers and passwords: the sent datagram is RMCP v6 / '
        'class IPMI / auth type / LE sequence and id / 16-byte code iff type != none / length byte / payload; the code '
@@ -87,7 +88,7 @@ ROWS = {
  'C09': dict(
   text='Lean theorems for routing paths of every length: the bridged request is a nest of Send Message layers (one per '
        'hop, right bridge address, channel, tracking bit, valid checksums) whose innermost frame is the original '
-       'request; unwrap(wrap reply) = reply for every depth; a failing layer yields its completion code; a bare '
+       'request; unwrap(wrap reply) = reply for every depth and every inner command but App/34h (34h in other NetFns included); a damaged wrapper is never unwrapped; the transport unwraps only the intact response to its own outstanding Send Message; un-bridged requests never unwrap; late or foreign acks are never raised (counter-examples for the source before fix e1dd889); a failing layer yields its completion code; a bare '
        'acknowledgement is never returned and makes the transport read on; after ANY history of re-routings of one Target the '
        'request traverses exactly the hops of the path configured last (reroute_peel_all).',
   note='Model/Bridge.lean hand-written on top of the generated C03 framing model; Send Message ids and channel-byte bit '
@@ -112,7 +113,7 @@ ROWS = {
        'call-site table (which reserve function each store uses) are regenerated from the source on every run.',
   note='translator harness/translate/loops11.py (shared with C13); Model/SdrXfer.lean hand-written, tied by a differential '
        'run on outcome, bytes and full request trace; reference device Spec/SdrDevice.lean with a Python twin re-validated '
-       'against it on every trace; completion proved for a device without transient codes and <= 2 cancellations (tight); history stream on one Ipmi object over both stores (A, then B with a cancellation or transient before every request index, then back to A; random sequences): each step judged by the same oracles and equal to a fresh object\'s run, which is what the model computes',
+       'against it on every trace; completion proved for a device without transient codes and <= 2 cancellations (tight); history stream on one Ipmi object over both stores (A, then B with a cancellation or transient before every request index, then back to A; random sequences): each step judged by the same oracles and equal to a fresh object\'s run, which is what the model computes; Variant.staleRes probed, theorems hold for both values',
   tech='Lean 4 proof (loop invariants by induction on the retry budgets, chain induction for listings, trace invariant over an arbitrary transport) + AST translator + differential correspondence against a reference device'),
  'C12': dict(
   text='Lean theorems for every log, partial-read limit and script of concurrent changes: entries are returned exactly, '
@@ -125,13 +126,13 @@ ROWS = {
   text='Lean theorems for EVERY outcome sequence and budget: chunk fetching, repository clearing and send_message issue '
        'a bounded number of requests, use the most recent reservation, initiate before polling, report success iff '
        'the last status says complete, propagate unexpected codes, end in RetryError on exhaustion; send_message '
-       'repeats only after node busy. Constants, loop tests and call sites are re-read from helper.py/__init__.py on '
+       'repeats only after node busy; also above the chunk helper: for every transport, every Get (Device) SDR of a record read or a listing carries the id returned by the most recent Reserve of that store (the caller\'s before the first; fresh_reservation_data / _listing / _every_get, counter-example stale_after_renewal_as_shipped); <= 161 exchanges per record. Constants, loop tests and call sites are re-read from helper.py/__init__.py on '
        'every run.',
   note='translator harness/translate/loops11.py; Model/Retry.lean hand-written, tied by depth-first exploration of the '
-       'outcome tree (depth 5/8, budgets 1..6) on the real helpers with scripted callables; time.sleep recorded',
+       'outcome tree (depth 5/8, budgets 1..6) on the real helpers with scripted callables; time.sleep recorded; Model/SdrXfer.lean on a scripted byte-level device, renewed-id variant probed',
   tech='Lean 4 proof (induction on the budget / outcome stream) + translator + exhaustive outcome-tree correspondence'),
  'C14': dict(
-  text='19 Lean theorems over ALL schedules of an interleaving model of one Rmcp interface shared by any number of '
+  text='21 Lean theorems over ALL schedules of an interleaving model of one Rmcp interface shared by any number of '
        'application threads, its own keep-alive loop (call_repeatedly: the interval elapses any number of times at '
        'any moment) and one thread that ends with close_session: each caller gets its own reply; exchanges are not '
        'interleaved on the socket; session sequence numbers are strictly increasing over the whole wire log including '
@@ -139,7 +140,7 @@ ROWS = {
        'stopper\'s join; every maximal run ends with all calls made, Close Session last, the session deactivated and '
        'the keep-alive thread terminated. The model has both variants of the stopper: as shipped (event.set only) a '
        'concrete schedule is PROVED to put the keep-alive\'s Get Device ID after Close Session with a repeated '
-       'sequence number (defect found and fixed in /repo, cd1ae83); with the join the property is proved. Lock '
+       'sequence number (defect found and fixed in /repo, cd1ae83); with the join the property is proved. Second variant (sequence number allocated inside the lock, fix b0e0b42): rq_seq_distinct_on_wire for every schedule, late_reply_cannot_match; racy_seq_asShipped_counterexample. Lock '
        'scope, packing place, sequence-number updates, the `activated` guard, the keep-alive loop, what the stopper '
        'does and the shape of close_session are re-read from the AST of rmcp.py / session.py on every run '
        '(Gen/Threads.lean, theorem source_shape). The model\'s atomic steps are validated by trace inclusion: real '
@@ -151,16 +152,15 @@ ROWS = {
        'granularity: source lines and shared-attribute accesses (bytecode-level switches inside a line and GIL '
        'release in C calls are not exhibited); Event.wait(interval) is a virtual timer whose wake-up is a scheduling '
        'decision; exactly one thread closes, after the other application threads have finished; thread START timing '
-       'of call_repeatedly and establish_session (C06) are not explored; faults (late replies) only in the '
-       'failing-input search after a broken tie - partial with respect to the CPython runtime',
+       'of call_repeatedly and establish_session (C06) are not explored; one late reply x every <= 2..3-preemption schedule at shared-access granularity is an always-on stream judged on the real code - partial with respect to the CPython runtime',
   tech='Lean 4 proof (three inductive invariants over all schedules of a step relation, termination measure, counter-example by decide for the shipped stopper) + AST translator of the lock/packing/loop/stopper/close shape + trace-inclusion validation on really scheduled threads including stop timing'),
  'C15': dict(
   text='Lean theorems: parse(encode img) = img for every abstract FRU image (all areas, four text encodings, custom '
        'fields, multi-records incl. PICMG), acceptance implies all zero-sum checksums, hence any single alteration of '
-       'a covered byte is rejected. Masks, shifts, BCD map, dispatch constants and length guards are regenerated from '
+       'a covered byte is rejected - for an info-area length byte: acceptance implies a declared length >= 1 unit inside the data with a zero sum over exactly that span, which contains the byte (0 and beyond-data rejected; length_byte_limit shows no reader can do more), on the file and the device path; OEM C0h records of other manufacturers are undecoded records; 23 theorems. Masks, shifts, BCD map, dispatch constants and length guards are regenerated from '
        'fru.py/fields.py on every run; images are encoded by an independent Lean encoder written from the storage definition.',
   note='translator harness/translate/fru.py; Model/FruParse.lean hand-written and tied by differential run (bytes, '
-       'array, list, file, device path); datetime arithmetic modelled; device histories on one long-lived Ipmi object: image A read, contents replaced by image B behind the back of the library / by a complete / a faulted-and-resumed / a tail-first write_fru_data, other FRU ids in between, read again => B\'s view',
+       'array, list, file, device path); datetime arithmetic modelled; five probed variant flags with counter-example theorems; device path modelled (Model/FruDevice) and tied; translator also recognises the dispatch, length-guard and area-length shapes; device histories on one long-lived Ipmi object: image A read, contents replaced by image B behind the back of the library / by a complete / a faulted-and-resumed / a tail-first write_fru_data, other FRU ids in between, read again => B\'s view',
   tech='Lean 4 proof (parser/encoder inversion by induction on fields and records; checksum algebra) + translator + differential correspondence'),
  'C16': dict(
   text='47 Lean theorems: for each of the eight record kinds parse(encode r) = r for every abstract record; 10-bit M, B, '
